@@ -460,6 +460,65 @@ impl<A: Al, const TAG: u8> Default for Tok<A, TAG> {
     }
 }
 
+/// A large payload (inline size > 2 KiB): an identity-tracked Tok followed by filler that every read verifies.
+/// Witness for code paths keyed on `size_of::<T>()`.
+#[repr(C)]
+pub struct Big<const N: usize> {
+    t: Tok<A8, 10>,
+    fill: [u8; N],
+}
+impl<const N: usize> Big<N> {
+    fn fill_ok(&self) -> bool {
+        self.fill.iter().step_by(61).all(|b| *b == 0x77) && self.fill[N - 1] == 0x77
+    }
+}
+impl<const N: usize> Clone for Big<N> {
+    fn clone(&self) -> Self {
+        Big { t: self.t.clone(), fill: self.fill }
+    }
+}
+impl<const N: usize> Default for Big<N> {
+    fn default() -> Self {
+        Big { t: Default::default(), fill: [0x77; N] }
+    }
+}
+impl<const N: usize> PartialEq for Big<N> {
+    fn eq(&self, o: &Self) -> bool {
+        self.t == o.t
+    }
+}
+impl<const N: usize> PartialOrd for Big<N> {
+    fn partial_cmp(&self, o: &Self) -> Option<CmpOrdering> {
+        self.t.partial_cmp(&o.t)
+    }
+}
+impl<const N: usize> Hash for Big<N> {
+    fn hash<H: Hasher>(&self, h: &mut H) {
+        self.t.hash(h)
+    }
+}
+impl<const N: usize> fmt::Debug for Big<N> {
+    fn fmt(&self, f: &mut fmt::Formatter<'_>) -> fmt::Result {
+        self.t.fmt(f)
+    }
+}
+impl<const N: usize> Payload for Big<N> {
+    fn make(val: u64) -> Self {
+        Big { t: Tok::new(val), fill: [0x77; N] }
+    }
+    fn peekp(&self) -> Peek {
+        let mut p = self.t.peek();
+        p.ok = p.ok && self.fill_ok();
+        p
+    }
+    fn setp(&mut self, val: u64) {
+        self.t.set(val)
+    }
+    fn tyname() -> String {
+        format!("Big<{} bytes> (a Tok plus verified filler)", std::mem::size_of::<Self>())
+    }
+}
+
 /// Zero-sized counted payload (identity is impossible; made/dropped are counted per tag).
 pub struct TokZ<const Z: usize>(PhantomData<()>);
 
